@@ -100,6 +100,7 @@ RootSpellOk(r) ==
 
 RecOk(r) == CASE r.kind = "skipped" -> TRUE
               [] r.kind = "rootspell" -> RootSpellOk(r)
+              [] r.kind = "baddesc" -> r.terminated /\ ~r.panic /\ r.refused     \* no interval, no "root + interval" to report
               [] r.kind = "degree" -> DegreeApiOk(r)
               [] r.kind = "describe" -> DescribeOk(r)
               [] r.kind = "notation" -> NotationOk(r)
